@@ -21,6 +21,7 @@ FLAG_FINDING = {1: "C17-stub-add-persists", 2: "C17-stub-crossinvoke-reachable",
                 4: "C17-nonresponse-initservicecache", 10: "C17-unguarded-DeleteInterchain", 11: "C17-unguarded-Interchain.Register",
                 12: "C17-unguarded-HandleIBTPData", 13: "C17-unguarded-ZeroPermission", 14: "C17-unguarded-EmitInterchain",
                 15: "C17-unguarded-InvokeInterchain", 16: "C17-unguarded-InvokeReceipt", 17: "C17-unguarded-ServiceRegistry.Manage"}
+STALE_ADMIN = "C17-removed-appchain-admin-keeps-self"
 HOT_STUB = {"Add", "AddObject", "Set", "SetObject", "Delete", "CrossInvoke", "CrossInvokeEVM", "PostEvent", "PostInterchainEvent", "GetAccount"}
 
 
@@ -78,6 +79,10 @@ def caller_bits(m, role, args, chains=None, ph=None):
 
 def hist_ctx(h):
     """(chain -> role of its admin, role -> sender placeholder, role -> objects of that role) of a history"""
+    cx = h.get("ctx")
+    if cx:
+        return ({k: int(v) for k, v in cx.get("chains", {}).items()} or CHAIN_ADMIN_ROLE, {int(k): v for k, v in cx.get("phs", {}).items()},
+                {int(k): tuple(v) for k, v in cx.get("objs", {}).items()} if "objs" in cx else OWN_OBJECTS)
     t = h.get("sep_target")
     if not t:
         return CHAIN_ADMIN_ROLE, {}, OWN_OBJECTS
@@ -230,6 +235,45 @@ def gen_histories(ctx, methods, icls, nvec, enabled):
             if seq:
                 hists.append(dict(warm=False, sep=True, sep_target=[chain, svc, adm], audit=audit, zero=False, surface=False, calls=[c for c, _ in seq]))
                 index.append([e for _, e in seq])
+    # (e) FORMER governance admins: $GOVN (logged out: forbidden) and $GOVM (frozen), both in the electorate of the open
+    #     proposals $PX / $PY, call Vote on them and every method reserved to governance admins; they are outsiders now
+    adminish = ("AdminOnly", "ChainAdminOrAdmin", "SelfOrAdmin")
+    vote = byname.get(("Governance", "Vote"))
+    for audit in (False, True):
+        for ex in ("$GOVN", "$GOVM"):
+            seq = []
+            if vote is not None:
+                for pid, b in (("$PX", "approve"), ("$PY", "reject"), ("$P0", "approve")):
+                    seq.append((vote, [["s", pid], ["s", b], ["s", "r"]]))
+            for m in methods:
+                if m.origin == "own" and m.contract in enabled and icls.get(m.key(), "") in adminish and m.name != "Vote":
+                    seq.append((m, L.well_typed_args(m, 0, r)))
+            if vote is not None:
+                seq.append((vote, [["s", "$PX"], ["s", "reject"], ["s", "r"]]))
+            hists.append(dict(warm=False, exadmin=True, ctx=dict(phs={"0": ex}), audit=audit, zero=False, surface=False,
+                              calls=[dict(c=m.contract, m=m.name, role=0, args=a, **{"as": ex}) for m, a in seq]))
+            index.append([(m, 0, audit, 0, a, True) for m, a in seq])
+    # (f) a REMOVED appchain admin: chainX registered with admins "$ADMX,$EXADM", then an approved UpdateAppchain drops
+    #     $EXADM; $EXADM - an outsider now - calls the managers' methods with the chain's ids (then the remaining admin)
+    for audit in (False, True):
+        table = {"chainA:svcA": "chainX:svcX", "chainB:svcB": "chainX:svcX", "chainA": "chainX", "chainB": "chainX", "svcA": "svcX", "svcB": "svcX"}
+        early, late = [], []
+        for m in methods:
+            if m.origin != "own" or m.contract not in ("ServiceManager", "AppchainManager", "RuleManager") or m.contract not in enabled:
+                continue
+            if icls.get(m.key(), "") in ("Query", "Uncallable", ""):
+                continue
+            a = [[x[0], re.sub(r"chain[AB]:svc[AB]|chain[AB]|svc[AB]", lambda mo: table[mo.group(0)], x[1])] if x[0] == "s" and isinstance(x[1], str) else x
+                 for x in L.well_typed_args(m, 0, r)]
+            if not any(x[0] == "s" and isinstance(x[1], str) and "chainX" in x[1] for x in a):
+                continue
+            early.append((dict(c=m.contract, m=m.name, role=0, args=a, **{"as": "$EXADM"}), (m, 0, audit, 0, a, True)))
+            late.append((dict(c=m.contract, m=m.name, role=4, args=a, **{"as": "$ADMX"}), (m, 4, audit, 0, a, True)))
+        seq = early + late
+        if seq:
+            hists.append(dict(warm=False, exchain=True, ctx=dict(chains={"chainX": 4}, phs={"0": "$EXADM", "4": "$ADMX"}, objs={"4": ["chainX"]}),
+                              audit=audit, zero=False, surface=False, calls=[c for c, _ in seq]))
+            index.append([e for _, e in seq])
     # an unknown method and an unknown contract method name
     hists.append(dict(audit=False, zero=False, surface=True,
                       calls=[dict(c="Store", m="NoSuchMethod", role=0, args=[]), dict(c="Governance", m="vote", role=2, args=[])]))
@@ -237,7 +281,7 @@ def gen_histories(ctx, methods, icls, nvec, enabled):
     return hists, index
 
 
-PARTIES = ["$OUT", "$ADMB", "$GOV0", "$GOV1", "$NODE", "$ADMA", "$NEW", "$ADMC", "$WARMROLE", "$ZNEW", "$ZROLE", "$ADMO", "$ADMS", "$ADMT", "$ADMU"]
+PARTIES = ["$OUT", "$ADMB", "$GOV0", "$GOV1", "$NODE", "$ADMA", "$NEW", "$ADMC", "$WARMROLE", "$ZNEW", "$ZROLE", "$ADMO", "$ADMS", "$ADMT", "$ADMU", "$GOV2", "$GOV3", "$GOVN", "$GOVM", "$ADMX", "$EXADM"]
 OWN_OBJECTS = {4: ("chainA", "svcA"), 1: ("chainB", "svcB")}
 
 
@@ -454,9 +498,19 @@ def run(ctx):
             if v[0] == 0:
                 continue
             what = describe(entry, ob)
-            rep = dict(property="C17", driver="surface", history=dict(warm=hists[hn].get("warm", False), zswitch=hists[hn].get("zswitch", False), sep=hists[hn].get("sep", False), sep_target=hists[hn].get("sep_target"), audit=hists[hn].get("audit", False), zero=hists[hn].get("zero", False),
+            rep = dict(property="C17", driver="surface", history=dict(warm=hists[hn].get("warm", False), zswitch=hists[hn].get("zswitch", False), sep=hists[hn].get("sep", False), sep_target=hists[hn].get("sep_target"), exadmin=hists[hn].get("exadmin", False), exchain=hists[hn].get("exchain", False), ctx=hists[hn].get("ctx"), audit=hists[hn].get("audit", False), zero=hists[hn].get("zero", False),
                                                                         surface=False, calls=hists[hn]["calls"][:cn + 1]),
                        failing_call=cn, obs=ob, verdict=v, what=what)
+            # open finding: the appchain manager's own admin->chain index is never shrunk, so an admin REMOVED by an approved
+            # UpdateAppchain still is "self" for AppchainManager's PermissionSelf (narrow signature: exchain world, that
+            # contract, that caller, a guard with PermissionSelf)
+            if (hists[hn].get("exchain") and m is not None and m.contract == "AppchainManager" and hists[hn]["calls"][cn].get("as") == "$EXADM"
+                    and m.guard["kind"] == "perm" and "PermissionSelf" in m.guard["perms"] and STALE_ADMIN in known):
+                if v[0] == 2:
+                    ctx.known(STALE_ADMIN, known[STALE_ADMIN]["what"])
+                    continue
+                if v[0] == 1:
+                    continue      # refused inside the body, not by the guard: what the stale index makes of this caller
             if v[0] == 2:
                 fid = FLAG_FINDING.get(v[1])
                 if fid and fid in known:
